@@ -40,10 +40,11 @@ CHECKS.update({
     "C07": dict(
         category="model_checking",
         text="cpu_reset, master_reset and load are executed symbolically from a fully arbitrary Machine (all hidden fields through "
-             "hooks) and every field is compared with its documented post-value or its pre-value; load additionally with a symbolic "
-             "image (<= 4 bytes quick, <= 16 thorough) compared field-by-field with a new machine given the same program.",
+             "hooks) and every field is compared with its documented post-value or its pre-value; load: RAM == image followed by zeros from an "
+             "arbitrary RAM (empty program, image lengths 0, 2 quick / 16 thorough, bytes symbolic), and from a fully arbitrary machine all hidden "
+             "state equal to a new machine given the same program (length 0 quick; 1, 3, 8, 16 thorough).",
         design_ref="DESIGN.md section 3 / C07",
-        note="Bound: image length; one-line ByteCode. Cycle-for-cycle equality is derived from hidden-state equality + determinism of the edge.",
+        note="Bound: image length (concrete per harness); one-line or empty ByteCode. Cycle-for-cycle equality is derived from hidden-state equality + determinism of the edge.",
         technique=KANI + "postconditions from an arbitrary pre-state (histories abstracted by the arbitrary state)"),
     "C05": dict(
         category="model_checking",
@@ -102,8 +103,9 @@ CHECKS.update({
         text="Obligations, each a solver query over the real code from arbitrary states: the key sets the flip-flop iff MICR bit 0; the flip-flop "
              "persists over every edge that does not sample it and is cleared by the sampling edge (so the trigger cycle is arbitrary: inside "
              "multi-cycle instructions, waits, MUL/DIV loops); sampling happens only in the last word of a routine and EI/DI/RETI end without it "
-             "(from the proved sequencer model); the entry routine pushes FR then PC, clears IE, jumps to 2 (both kinds of 'int:' word); RETI "
-             "restores PC and FR. Transparency of a register-preserving ISR is derived from these + C01, not run as one scenario.",
+             "(from the proved sequencer model); every instruction path whose last word takes the interrupt branch leaves exactly the instruction's "
+             "ISA effect at the 'int:' word with the flip-flop cleared (8 paths quick, all 102 thorough); the entry routine pushes FR then PC, "
+             "clears IE, jumps to 2 (one harness per distinct 'int:' word); RETI restores PC and FR. Transparency of a register-preserving ISR is derived from these + C01, not run as one scenario.",
         design_ref="DESIGN.md section 3 / C04",
         note="'Enabled' = MICR.0 at the key press and IE at the next sampling word. No bounded end-to-end interrupted-vs-uninterrupted run is included.",
         technique=KANI + "flip-flop one-edge lemmas + entry/RETI path harnesses + sequencer-model facts"),
@@ -131,11 +133,13 @@ CHECKS.update({
         category="model_checking",
         text="Machine::trigger_key_clock in Assembly mode is checked against an explicit single-edge stepping loop with the clock edge replaced by an "
              "ARBITRARY deterministic automaton (symbolic next-state/micro-address/run-state tables): for every behaviour of the edge and every "
-             "start state the step issues exactly the edges up to the next boundary or halt, for steps of at most 6 (quick) / 12 (thorough) edges. "
+             "start state the step issues exactly the edges up to the next boundary or halt, for steps of at most 6 (quick) / 12 (thorough) edges; a "
+             "second lemma with a counter-shaped edge function (symbolic leave/back/halt positions and start phase) covers steps of up to 100 (quick) / "
+             "560 (thorough) edges - longer than the longest real step (DIV, quotient 255, < 530 edges); Real mode = exactly one edge. "
              "'A step always returns' is decided from the proved sequencer graph; the 20 undefined first bytes for which it does not are a known finding.",
         design_ref="DESIGN.md section 3 / C11",
         note="The real edge is stubbed in this lemma (it is C01/C05/C09's subject); counterexamples are confirmed on the real code by a native sweep "
-             "over fixed programs x phases. Steps longer than the bound (MUL/DIV, > 12 edges) are outside.",
+             "over fixed programs x phases. Quick tier: steps longer than 100 edges are outside (a cap above the bound is invisible to it).",
         technique=KANI + "stepping loop vs reference loop over an uninterpreted (table-driven) edge function"),
     "C03": dict(
         category="other",
